@@ -260,3 +260,174 @@ Section RowSplitProofs.
     cell_three_pages U true c s = firstn s c ++ c.
   Proof. reflexivity. Qed.
 End RowSplitProofs.
+
+(* ------------------------------------------------------------------ ResumeStack.Equals *)
+From Coq Require Import ZArith Bool.
+Section ResumeStackEquals.
+Local Open Scope Z_scope.
+
+Lemma mstack_ind' (P : mstack -> Prop) :
+  (forall e, Forall (fun kv => P (snd kv)) e -> P (MS e)) -> forall r, P r.
+Proof.
+  intros H. fix IH 1. intros [e]. apply H.
+  induction e as [|[k v] t IHt]; constructor; [apply IH|exact IHt].
+Qed.
+
+Definition lookup_equal (eo : list (Z * mstack)) (kv : Z * mstack) : bool :=
+  match ms_lookup (fst kv) eo with Some v2 => ms_equals (snd kv) v2 | None => false end.
+
+Lemma ms_equals_unfold er o :
+  ms_equals (MS er) o =
+  Nat.eqb (length er) (length (ms_entries o)) && forallb (lookup_equal (ms_entries o)) er.
+Proof.
+  cbn [ms_equals]. f_equal.
+  induction er as [|[k v] t IHt]; [reflexivity|].
+  cbn [forallb]. rewrite <- IHt. reflexivity.
+Qed.
+
+Lemma ms_canonical_unfold e :
+  ms_canonical (MS e) = keys_increasing None (map fst e) && forallb (fun kv => ms_canonical (snd kv)) e.
+Proof.
+  cbn [ms_canonical]. f_equal.
+  induction e as [|[k v] t IHt]; [reflexivity|].
+  cbn [forallb snd]. rewrite <- IHt. reflexivity.
+Qed.
+
+Lemma keys_inc_lb k ks : keys_increasing (Some k) ks = true -> Forall (fun x => k < x) ks.
+Proof.
+  revert k. induction ks as [|a t IH]; intros k H; [constructor|].
+  cbn [keys_increasing] in H. apply andb_true_iff in H. destruct H as [Hlt Ht].
+  apply Z.ltb_lt in Hlt. constructor; [exact Hlt|].
+  apply IH in Ht. eapply Forall_impl; [|exact Ht]. cbn. intros x Hx. lia.
+Qed.
+
+Lemma keys_inc_tail lo k ks : keys_increasing lo (k :: ks) = true -> keys_increasing (Some k) ks = true.
+Proof. cbn [keys_increasing]. intros H. apply andb_true_iff in H. tauto. Qed.
+
+Lemma keys_inc_any k ks : keys_increasing (Some k) ks = true -> keys_increasing None ks = true.
+Proof.
+  destruct ks as [|a t]; [reflexivity|]. cbn [keys_increasing]. intros H.
+  apply andb_true_iff in H. destruct H as [_ H]. rewrite H. reflexivity.
+Qed.
+
+Lemma lookup_in k v e : ms_lookup k e = Some v -> In (k, v) e.
+Proof.
+  induction e as [|[k' v'] t IH]; [discriminate|]. cbn [ms_lookup].
+  destruct (Z.eqb_spec k k') as [->|Hne]; intros H.
+  - injection H as ->. left. reflexivity.
+  - right. apply IH. exact H.
+Qed.
+
+Lemma in_lookup lo k v e :
+  keys_increasing lo (map fst e) = true -> In (k, v) e -> ms_lookup k e = Some v.
+Proof.
+  revert lo. induction e as [|[k' v'] t IH]; intros lo Hs Hin; [destruct Hin|].
+  cbn [ms_lookup]. cbn [map fst] in Hs. destruct Hin as [Heq|Hin].
+  - injection Heq as -> ->. rewrite Z.eqb_refl. reflexivity.
+  - pose proof (keys_inc_tail _ _ _ Hs) as Ht.
+    pose proof (keys_inc_lb _ _ Ht) as Hlb. rewrite Forall_forall in Hlb.
+    assert (Hk : k' < k) by (apply Hlb; apply in_map_iff; exists (k, v); split; [reflexivity|exact Hin]).
+    destruct (Z.eqb_spec k k') as [->|_]; [lia|]. eapply IH; eassumption.
+Qed.
+
+(* two key-sorted entry lists with the same members are the same list *)
+Lemma sorted_same_members lo1 lo2 (l1 l2 : list (Z * mstack)) :
+  keys_increasing lo1 (map fst l1) = true -> keys_increasing lo2 (map fst l2) = true ->
+  incl l1 l2 -> incl l2 l1 -> l1 = l2.
+Proof.
+  revert lo1 lo2 l2. induction l1 as [|[k1 v1] t1 IH]; intros lo1 lo2 l2 H1 H2 I12 I21.
+  - destruct l2 as [|a t2]; [reflexivity|]. destruct (I21 a (or_introl eq_refl)).
+  - destruct l2 as [|[k2 v2] t2]; [destruct (I12 _ (or_introl eq_refl))|].
+    cbn [map fst] in H1, H2.
+    pose proof (keys_inc_tail _ _ _ H1) as T1. pose proof (keys_inc_tail _ _ _ H2) as T2.
+    pose proof (keys_inc_lb _ _ T1) as L1. pose proof (keys_inc_lb _ _ T2) as L2.
+    rewrite Forall_forall in L1, L2.
+    assert (K1 : forall k v, In (k, v) t1 -> k1 < k).
+    { intros k v Hin. apply L1. apply in_map_iff. exists (k, v). split; [reflexivity|exact Hin]. }
+    assert (K2 : forall k v, In (k, v) t2 -> k2 < k).
+    { intros k v Hin. apply L2. apply in_map_iff. exists (k, v). split; [reflexivity|exact Hin]. }
+    assert (Hhead : (k1, v1) = (k2, v2)).
+    { destruct (I12 (k1, v1) (or_introl eq_refl)) as [E|Hin]; [symmetry; exact E|].
+      destruct (I21 (k2, v2) (or_introl eq_refl)) as [E|Hin']; [exact E|].
+      apply K2 in Hin. apply K1 in Hin'. lia. }
+    injection Hhead as <- <-. f_equal.
+    apply (IH (Some k1) (Some k1)); [exact T1|exact T2| |].
+    + intros [k v] Hin. destruct (I12 _ (or_intror Hin)) as [E|Hin']; [|exact Hin'].
+      injection E as <- <-. apply K1 in Hin. lia.
+    + intros [k v] Hin. destruct (I21 _ (or_intror Hin)) as [E|Hin']; [|exact Hin'].
+      injection E as <- <-. apply K2 in Hin. lia.
+Qed.
+
+Lemma sorted_nodup lo (l : list (Z * mstack)) : keys_increasing lo (map fst l) = true -> NoDup l.
+Proof.
+  revert lo. induction l as [|[k v] t IH]; intros lo H; [constructor|].
+  cbn [map fst] in H. pose proof (keys_inc_tail _ _ _ H) as T.
+  constructor; [|eapply IH; exact T].
+  intros Hin. pose proof (keys_inc_lb _ _ T) as L. rewrite Forall_forall in L.
+  assert (k < k) by (apply L; apply in_map_iff; exists (k, v); split; [reflexivity|exact Hin]). lia.
+Qed.
+
+Lemma ms_equals_refl r : ms_canonical r = true -> ms_equals r r = true.
+Proof.
+  induction r as [e IH] using mstack_ind'. intros Hc.
+  rewrite ms_canonical_unfold in Hc. apply andb_true_iff in Hc. destruct Hc as [Hs Hsub].
+  rewrite ms_equals_unfold. cbn [ms_entries]. rewrite Nat.eqb_refl. cbn [andb].
+  apply forallb_forall. intros [k v] Hin. unfold lookup_equal. cbn [fst snd].
+  rewrite (in_lookup _ _ _ _ Hs Hin).
+  rewrite Forall_forall in IH. apply (IH (k, v) Hin).
+  rewrite forallb_forall in Hsub. apply (Hsub (k, v) Hin).
+Qed.
+
+(* ResumeStack.Equals is equality of the maps: on canonical representations (entries by
+   increasing key) it holds exactly for structurally equal stacks, however deep the two
+   stacks differ *)
+Theorem ms_equals_iff_eq r o :
+  ms_canonical r = true -> ms_canonical o = true -> (ms_equals r o = true <-> r = o).
+Proof.
+  intros Hr Ho. split; [|intros <-; apply ms_equals_refl; exact Hr].
+  revert o Hr Ho. induction r as [er IH] using mstack_ind'. intros [eo] Hr Ho He.
+  rewrite ms_canonical_unfold in Hr, Ho.
+  apply andb_true_iff in Hr. destruct Hr as [Hsr Hcr].
+  apply andb_true_iff in Ho. destruct Ho as [Hso Hco].
+  rewrite ms_equals_unfold in He. cbn [ms_entries] in He.
+  apply andb_true_iff in He. destruct He as [Hlen Hall]. apply Nat.eqb_eq in Hlen.
+  rewrite forallb_forall in Hall, Hcr, Hco. rewrite Forall_forall in IH.
+  assert (I12 : incl er eo).
+  { intros [k v1] Hin. pose proof (Hall _ Hin) as Hl. unfold lookup_equal in Hl. cbn [fst snd] in Hl.
+    destruct (ms_lookup k eo) as [v2|] eqn:El; [|discriminate].
+    apply lookup_in in El.
+    assert (v1 = v2) as ->; [|exact El].
+    apply (IH (k, v1) Hin); [apply (Hcr (k, v1) Hin)|apply (Hco (k, v2) El)|exact Hl]. }
+  assert (I21 : incl eo er).
+  { apply NoDup_length_incl; [eapply sorted_nodup; exact Hsr|lia|exact I12]. }
+  f_equal. eapply sorted_same_members; eassumption.
+Qed.
+
+Lemma ms_eqb_refl r : ms_eqb r r = true.
+Proof.
+  induction r as [e IH] using mstack_ind'. cbn [ms_eqb].
+  induction IH as [|[k v] t Hv Ht IHt]; [reflexivity|].
+  cbn [snd] in Hv. rewrite Z.eqb_refl, Hv. cbn [andb]. exact IHt.
+Qed.
+
+Theorem ms_eqb_eq r o : ms_eqb r o = true <-> r = o.
+Proof.
+  split; [|intros <-; apply ms_eqb_refl].
+  revert o. induction r as [er IH] using mstack_ind'. intros [eo]. cbn [ms_eqb].
+  revert eo. induction IH as [|[k v] t Hv Ht IHt]; intros [|[k2 v2] t2] H; try discriminate; [reflexivity|].
+  apply andb_true_iff in H. destruct H as [H H3]. apply andb_true_iff in H. destruct H as [H1 H2].
+  apply Z.eqb_eq in H1. subst k2. cbn [snd] in Hv. apply Hv in H2. subst v2.
+  apply IHt in H3. injection H3 as ->. reflexivity.
+Qed.
+
+(* what a comparison of the top level and of the sizes below it would accept (the shape of a
+   shallow Equals): two different resume points inside the same paragraph *)
+Definition ms_deep_pair : mstack * mstack :=
+  (MS [(0, MS [(0, MS [(1, MS [(4, MS [])])])])], MS [(0, MS [(0, MS [(1, MS [(7, MS [])])])])]).
+
+Lemma ms_equals_separates_deep_difference :
+  ms_equals (fst ms_deep_pair) (snd ms_deep_pair) = false /\
+  length (ms_entries (fst ms_deep_pair)) = length (ms_entries (snd ms_deep_pair)).
+Proof. split; reflexivity. Qed.
+
+End ResumeStackEquals.
